@@ -66,30 +66,31 @@ theorem prevCand_sound (mods : List Module) (a j : Nat) (m : Module)
         exact ⟨hp, by omega, by omega⟩
     · cases h
 
-theorem findCand_sound (mods : List Module) (hne : ∀ m ∈ mods, m.start < m.stop) (a j : Nat)
+theorem findCand_sound (mods : List Module) (a j : Nat)
     (m : Module) (h : findCand mods a = some (j, m)) : mods[j]? = some m ∧ m.contains a := by
   unfold findCand at h
   split at h
   · rename_i x hx
     split at h
-    · injection h with h
-      injection h with h1 h2
-      subst h1 h2
-      have := hne x (List.mem_of_getElem? hx)
-      exact ⟨hx, by omega, by omega⟩
+    · split at h
+      · cases h
+      · injection h with h
+        injection h with h1 h2
+        subst h1 h2
+        exact ⟨hx, by omega, by omega⟩
     · exact prevCand_sound mods a j m h
   · exact prevCand_sound mods a j m h
 
 /-- Soundness of `find_module_for_address`: whatever it returns is a registered module
 whose range contains the address, with the relative address computed from its base. -/
-theorem findModule_sound (mods : List Module) (hne : ∀ m ∈ mods, m.start < m.stop) (a j rel : Nat)
+theorem findModule_sound (mods : List Module) (a j rel : Nat)
     (h : findModule mods a = some (j, rel)) :
     ∃ m, mods[j]? = some m ∧ m.contains a ∧ m.baseAvma ≤ a ∧ rel = a - m.baseAvma ∧ rel < U32 := by
   unfold findModule at h
   split at h
   · cases h
   · rename_i j' m hc
-    have ⟨h1, h2⟩ := findCand_sound mods hne a j' m hc
+    have ⟨h1, h2⟩ := findCand_sound mods a j' m hc
     split at h
     · cases h
     · split at h
@@ -121,7 +122,8 @@ theorem findCand_complete (mods : List Module) (h : NonOverlap mods) (a j : Nat)
         have h3 := h.2 x (List.mem_of_getElem? hx)
         omega
     rw [hidx, hm]
-    simp [hs]
+    have hns : ¬ m.stop ≤ a := by have := hc.2; omega
+    simp [hs, hns]
   · have hlt : m.start < a := by have := hc.1; omega
     have hidx : lowerBound a mods = j + 1 := by
       apply Nat.le_antisymm
@@ -167,13 +169,13 @@ theorem findModule_complete (mods : List Module) (h : NonOverlap mods) (a j : Na
   rw [findCand_complete mods h a j m hm hc]
 
 /-- An address that no registered module contains is unknown. -/
-theorem findModule_none (mods : List Module) (hne : ∀ m ∈ mods, m.start < m.stop) (a : Nat)
+theorem findModule_none (mods : List Module) (a : Nat)
     (h : ∀ m ∈ mods, ¬ m.contains a) : findModule mods a = none := by
   cases hf : findModule mods a with
   | none => rfl
   | some p =>
     obtain ⟨j, rel⟩ := p
-    obtain ⟨m, hm, hc, _⟩ := findModule_sound mods hne a j rel hf
+    obtain ⟨m, hm, hc, _⟩ := findModule_sound mods a j rel hf
     exact (h m (List.mem_of_getElem? hm) hc).elim
 
 /-- `add_module` keeps the list non-overlapping and adds exactly the new module. -/
